@@ -6,16 +6,20 @@ import (
 	"fmt"
 	"io"
 	"net/http"
+	"net"
 	"net/http/httptest"
 	"sync"
+	"runtime"
 	"sync/atomic"
 	"time"
 
 	"github.com/failsafe-go/failsafe-go"
 	"github.com/failsafe-go/failsafe-go/bulkhead"
+	"github.com/failsafe-go/failsafe-go/circuitbreaker"
 	"github.com/failsafe-go/failsafe-go/failsafehttp"
 	"github.com/failsafe-go/failsafe-go/hedgepolicy"
 	"github.com/failsafe-go/failsafe-go/retrypolicy"
+	"github.com/failsafe-go/failsafe-go/timeout"
 )
 
 // witness: replays the recorded failing scenario of an OPEN known finding against the implementation.
@@ -23,6 +27,7 @@ import (
 //
 //	harness witness d9     C18: hedged attempts share one seekable request body
 //	harness witness d12    C08: async Cancel during an outermost bulkhead's permit wait is reported as context.Canceled (fixed)
+//	harness witness d13    C19: a retried HTTP response is never closed when the next attempt is rejected before the function runs
 //	harness witness d4     C14: hedge attempts share one retry executor (run the race-enabled build; the race report is the failure)
 func init() {
 	commands["witness"] = func(args []string) int {
@@ -37,6 +42,10 @@ func init() {
 			return witnessD4()
 		case "d12":
 			return witnessD12()
+		case "d13":
+			return witnessD13()
+		case "d14":
+			return witnessD14()
 		}
 		return 2
 	}
@@ -136,6 +145,96 @@ func witnessD12() int {
 	}
 	fmt.Printf("witness d12: %d of 20 cancelled executions misreported their cause\n", bad)
 	if bad > 0 {
+		fmt.Println("WITNESS-FAILS")
+	}
+	return 0
+}
+
+// D13 (open): Retry(CircuitBreaker(http)): attempt 1 obtains a 500 response (the breaker opens), attempt 2 is rejected by the open
+// breaker before the adapter's function runs, attempt 3 (breaker half-open) succeeds. The adapter closes "the previous attempt's
+// response" through exec.LastResult(), which the rejected attempt has overwritten with nil: the 500 response is never closed and
+// its connection stays open at the server.
+func witnessD13() int {
+	var conns sync.Map
+	var n atomic.Int64
+	srv := httptest.NewUnstartedServer(http.HandlerFunc(func(w http.ResponseWriter, r *http.Request) {
+		io.Copy(io.Discard, r.Body)
+		if r.URL.Query().Get("first") == "1" && n.Add(1)%2 == 1 {
+			w.WriteHeader(500)
+			w.Write(bytes.Repeat([]byte("unavailable "), 4000)) // larger than what the transport reads ahead
+			return
+		}
+		w.WriteHeader(200)
+		w.Write([]byte("ok"))
+	}))
+	srv.Config.ConnState = func(c net.Conn, st http.ConnState) {
+		if st == http.StateClosed || st == http.StateHijacked {
+			conns.Delete(c)
+		} else {
+			conns.Store(c, st)
+		}
+	}
+	srv.Start()
+	defer srv.Close()
+	tr := &http.Transport{}
+	rounds, rejected := 10, 0
+	for i := 0; i < rounds; i++ {
+		cb := circuitbreaker.Builder[*http.Response]().HandleIf(func(r *http.Response, err error) bool { return r != nil && r.StatusCode >= 500 }).
+			WithFailureThreshold(1).WithDelay(30 * time.Millisecond).Build()
+		rp := retrypolicy.Builder[*http.Response]().HandleIf(func(r *http.Response, err error) bool { return err != nil || (r != nil && r.StatusCode >= 500) }).
+			WithMaxRetries(5).WithDelay(20 * time.Millisecond).
+			OnRetry(func(e failsafe.ExecutionEvent[*http.Response]) {
+				if errors.Is(e.LastError(), circuitbreaker.ErrOpen) {
+					rejected++
+				}
+			}).Build()
+		req, _ := http.NewRequest("POST", srv.URL+"/?first=1", bytes.NewReader([]byte("body")))
+		resp, err := (&http.Client{Transport: failsafehttp.NewRoundTripper(tr, rp, cb)}).Do(req)
+		if err != nil || resp == nil || resp.StatusCode != 200 {
+			fmt.Printf("witness d13: round %d ended with %v\n", i, err)
+		}
+		if resp != nil && resp.Body != nil {
+			io.Copy(io.Discard, resp.Body)
+			resp.Body.Close()
+		}
+	}
+	tr.CloseIdleConnections()
+	time.Sleep(300 * time.Millisecond)
+	left := 0
+	conns.Range(func(_, _ any) bool { left++; return true })
+	fmt.Printf("witness d13: %d connections still open at the server after %d requests (each: 500, rejected by the open breaker %d times in all, then 200), every returned body closed and idle connections dropped\n", left, rounds, rejected)
+	if left > 0 {
+		fmt.Println("WITNESS-FAILS")
+	}
+	return 0
+}
+
+// D14 probe: executions that complete normally under an executor bound to a long-lived context of a non-standard type. The child
+// contexts the library derives (async runner, Timeout, hedge winner) are only cancelled on cancellation / timeout, never on normal
+// completion: with a hand-written parent context every such child costs a goroutine (context.propagateCancel) until the parent ends.
+func witnessD14() int {
+	parent := customCtx{make(chan struct{})}
+	defer close(parent.done)
+	measure := func(name string, run func()) int {
+		runtime.GC()
+		time.Sleep(20 * time.Millisecond)
+		before := runtime.NumGoroutine()
+		for i := 0; i < 50; i++ {
+			run()
+		}
+		time.Sleep(100 * time.Millisecond)
+		runtime.GC()
+		after := runtime.NumGoroutine()
+		fmt.Printf("witness d14: %s: goroutines %d -> %d after 50 completed executions\n", name, before, after)
+		return after - before
+	}
+	grew := 0
+	grew += measure("async runner", func() { failsafe.NewExecutor[int]().WithContext(parent).GetAsync(func() (int, error) { return 1, nil }).Get() })
+	grew += measure("timeout that does not fire", func() {
+		failsafe.NewExecutor[int](timeout.With[int](time.Second)).WithContext(parent).Get(func() (int, error) { return 1, nil })
+	})
+	grew += measure("sync, no policy (control)", func() { failsafe.NewExecutor[int]().WithContext(parent).Get(func() (int, error) { return 1, nil }) })
+	if grew > 10 {
 		fmt.Println("WITNESS-FAILS")
 	}
 	return 0
